@@ -230,6 +230,20 @@ try:
     out["setparam"] = {"proto": [_SetGen(tags=frozenset(["alpha", "beta", "gamma", "delta", "eps"]), k=i).name for i in range(3)]}
 except Exception as e:
     out["setparam"] = {"proto": ["exc:" + type(e).__name__]}
+# ... and a set of sets of strings
+_SP2 = h.paramclass(type("SetP2", (), {"groups": h.Param(dtype=FrozenSet[FrozenSet[str]], desc="groups")}))
+def _setgen2(p):
+    m = h.Module()
+    m.p = h.Port()
+    return m
+_setgen2.__name__ = "SetGen2"
+_setgen2.__annotations__ = {"p": _SP2, "return": h.Module}
+_SetGen2 = h.generator(_setgen2)
+try:
+    _groups = frozenset([frozenset(["a1", "b2", "c3"]), frozenset(["d4", "e5", "f6"]), frozenset(["g7", "h8"]), frozenset(["i9", "j0", "k1", "l2"])])
+    out["setparam"]["proto"].append(_SetGen2(groups=_groups).name)
+except Exception as e:
+    out["setparam"]["proto"].append("exc2:" + type(e).__name__)
 # hdl21.flatten.flatten of a three-level hierarchy with many internal nets
 def _ladder():
     from hdl21.flatten import flatten
